@@ -1,0 +1,315 @@
+//go:build verif
+
+package dsp
+
+import (
+	"fmt"
+	"reflect"
+	"runtime"
+	"sort"
+	"strings"
+	"sync"
+)
+
+// Verification hook (property C13): enumerate the dispatch table, name the
+// implementation currently installed in every slot, reach the portable Go twin
+// of every slot and of every *_direct_* wrapper, and switch the whole package
+// between three table configurations:
+//
+//	"default"   what the package init() functions installed on this CPU
+//	"noavx2"    the same with hasAVX2 forced off (SSE2 only on amd64)
+//	"portable"  every dispatch slot holds the pure-Go function; hasAVX2 off
+//
+// The *_direct_* wrappers (FTransformDirect, SSE4x4Direct, TDisto4x4,
+// PredLuma16Direct, SimpleVFilter16, UpsampleLinePairNRGBA, ...) are ordinary
+// functions, not table slots: on amd64 they always call assembly and only follow
+// hasAVX2.  "portable" therefore cannot reach them in-process; their Go twins are
+// exposed by VerifKernels for the kernel-level comparison.
+//
+// Nothing here is compiled without the build tag "verif".  Switching is not
+// synchronised: call VerifSetConfig only while no codec work is running.
+
+// VerifKernel is one comparable kernel: Cur calls whatever the package would
+// call right now (table slot or direct wrapper), Go is the portable twin.
+type VerifKernel struct {
+	Name   string // e.g. "Transform", "PredLuma16[1]", "SSE16x16Direct"
+	Sig    string // signature class, see the Verif*Func types
+	Direct bool   // true: *_direct_* wrapper (follows hasAVX2 only)
+	Cur    any
+	Go     any
+}
+
+// Signature classes of VerifKernel.Cur / VerifKernel.Go.
+type (
+	VerifITransformFunc = func(ref []byte, in []int16, dst []byte, doTwo bool)
+	VerifFTransformFunc = func(src, ref []byte, out []int16)
+	VerifWHTFunc        = func(in, out []int16)
+	VerifDec2Func       = func(coeffs []int16, dst []byte, doTwo bool)
+	VerifDec1Func       = func(coeffs []int16, dst []byte)
+	VerifPredFunc       = func(buf []byte, off int)
+	VerifPredModeFunc   = func(mode int, buf []byte, off int)
+	VerifMetricFunc     = func(a, b []byte) int
+	VerifGreenFunc      = func(argb []uint32, numPixels int)
+	VerifSFilterFunc    = func(p []byte, base, stride, thresh int)
+	VerifUpsampleFunc   = func(topY, botY, topU, topV, botU, botV, topDst, botDst, alphaTop, alphaBot []byte, width int)
+)
+
+type verifTable struct {
+	ITransform    func(ref []byte, in []int16, dst []byte, doTwo bool)
+	FTransform    func(src, ref []byte, out []int16)
+	FTransform2   func(src, ref []byte, out []int16)
+	FTransformWHT func(in, out []int16)
+	Transform     func(coeffs []int16, dst []byte, doTwo bool)
+	TransformAC3  func(coeffs []int16, dst []byte)
+	TransformUV   func(coeffs []int16, dst []byte)
+	TransformDC   func(coeffs []int16, dst []byte)
+	TransformDCUV func(coeffs []int16, dst []byte)
+	TransformWHT  func(in, out []int16)
+	PredLuma16    [7]PredFunc
+	PredChroma8   [7]PredFunc
+	PredLuma4     [10]PredFunc
+	SSE4x4        MetricFunc
+	SSE16x16      MetricFunc
+	AddGreen      func(argb []uint32, numPixels int)
+	SubGreen      func(argb []uint32, numPixels int)
+	LPred         [16]LosslessPredFunc
+}
+
+func verifCapture() verifTable {
+	return verifTable{
+		ITransform: ITransform, FTransform: FTransform, FTransform2: FTransform2, FTransformWHT: FTransformWHT,
+		Transform: Transform, TransformAC3: TransformAC3, TransformUV: TransformUV, TransformDC: TransformDC,
+		TransformDCUV: TransformDCUV, TransformWHT: TransformWHT,
+		PredLuma16: PredLuma16, PredChroma8: PredChroma8, PredLuma4: PredLuma4,
+		SSE4x4: SSE4x4, SSE16x16: SSE16x16,
+		AddGreen: AddGreenToBlueAndRedFunc, SubGreen: SubtractGreenFunc,
+		LPred: LosslessPredictors,
+	}
+}
+
+func (t *verifTable) install() {
+	ITransform, FTransform, FTransform2, FTransformWHT = t.ITransform, t.FTransform, t.FTransform2, t.FTransformWHT
+	Transform, TransformAC3, TransformUV, TransformDC = t.Transform, t.TransformAC3, t.TransformUV, t.TransformDC
+	TransformDCUV, TransformWHT = t.TransformDCUV, t.TransformWHT
+	PredLuma16, PredChroma8, PredLuma4 = t.PredLuma16, t.PredChroma8, t.PredLuma4
+	SSE4x4, SSE16x16 = t.SSE4x4, t.SSE16x16
+	AddGreenToBlueAndRedFunc, SubtractGreenFunc = t.AddGreen, t.SubGreen
+	LosslessPredictors = t.LPred
+}
+
+func verifFuncName(f any) string {
+	v := reflect.ValueOf(f)
+	if v.Kind() != reflect.Func || v.IsNil() {
+		return "nil"
+	}
+	n := runtime.FuncForPC(v.Pointer()).Name()
+	if i := strings.LastIndex(n, "."); i >= 0 {
+		n = n[i+1:]
+	}
+	return n
+}
+
+// slots lists every table slot as name → implementation name.
+func (t *verifTable) slots() map[string]string {
+	m := map[string]string{
+		"ITransform": verifFuncName(t.ITransform), "FTransform": verifFuncName(t.FTransform),
+		"FTransform2": verifFuncName(t.FTransform2), "FTransformWHT": verifFuncName(t.FTransformWHT),
+		"Transform": verifFuncName(t.Transform), "TransformAC3": verifFuncName(t.TransformAC3),
+		"TransformUV": verifFuncName(t.TransformUV), "TransformDC": verifFuncName(t.TransformDC),
+		"TransformDCUV": verifFuncName(t.TransformDCUV), "TransformWHT": verifFuncName(t.TransformWHT),
+		"SSE4x4": verifFuncName(t.SSE4x4), "SSE16x16": verifFuncName(t.SSE16x16),
+		"AddGreenToBlueAndRedFunc": verifFuncName(t.AddGreen), "SubtractGreenFunc": verifFuncName(t.SubGreen),
+	}
+	for i, f := range t.PredLuma16 {
+		m[fmt.Sprintf("PredLuma16[%d]", i)] = verifFuncName(f)
+	}
+	for i, f := range t.PredChroma8 {
+		m[fmt.Sprintf("PredChroma8[%d]", i)] = verifFuncName(f)
+	}
+	for i, f := range t.PredLuma4 {
+		m[fmt.Sprintf("PredLuma4[%d]", i)] = verifFuncName(f)
+	}
+	for i, f := range t.LPred {
+		m[fmt.Sprintf("LosslessPredictors[%d]", i)] = verifFuncName(f)
+	}
+	return m
+}
+
+var (
+	verifOnce     sync.Once
+	verifDefault  verifTable // as installed by the package's own init() functions
+	verifPortable verifTable // Init() defaults + Go green transforms
+	verifCPUAVX2  bool       // hasAVX2 as detected at start-up
+	verifConfig   = "default"
+)
+
+func verifSetup() {
+	verifOnce.Do(func() {
+		verifDefault = verifCapture()
+		verifCPUAVX2 = hasAVX2
+		// dsp.go's Init() is what installs the portable functions; the two
+		// lossless slots are initialised by their var declarations instead.
+		Init()
+		AddGreenToBlueAndRedFunc = addGreenToBlueAndRedGo
+		SubtractGreenFunc = subtractGreenGo
+		verifPortable = verifCapture()
+		verifDefault.install()
+	})
+}
+
+// VerifArch reports GOARCH and whether the build carries assembly kernels.
+func VerifArch() (goarch string, hasAsm bool) { return runtime.GOARCH, verifHasAsm }
+
+// VerifCPUHasAVX2 is hasAVX2 as detected by the package at start-up.
+func VerifCPUHasAVX2() bool { verifSetup(); return verifCPUAVX2 }
+
+// VerifConfig returns the configuration selected last.
+func VerifConfig() string { return verifConfig }
+
+// VerifSetConfig switches the dispatch table and hasAVX2.
+func VerifSetConfig(cfg string) error {
+	verifSetup()
+	switch cfg {
+	case "default":
+		verifDefault.install()
+		verifSetAVX2(verifCPUAVX2)
+	case "noavx2":
+		verifPortable.install()
+		verifInstallAsm(false)
+		verifSetAVX2(false)
+	case "portable":
+		verifPortable.install()
+		verifSetAVX2(false)
+	default:
+		return fmt.Errorf("dsp: unknown verif config %q", cfg)
+	}
+	verifConfig = cfg
+	return nil
+}
+
+// VerifSlots names the implementation in every table slot right now.
+func VerifSlots() map[string]string {
+	verifSetup()
+	t := verifCapture()
+	return t.slots()
+}
+
+// VerifSelfCheck re-creates the default table with this hook's own copy of the
+// platform init() assignments and compares it, slot by slot, with what the
+// package really installed.  A non-empty result means the copy in
+// verif_dispatch_<arch>.go is out of date and "noavx2" cannot be trusted.
+func VerifSelfCheck() []string {
+	verifSetup()
+	saved := verifCapture()
+	savedAVX2 := hasAVX2
+	verifPortable.install()
+	verifInstallAsm(verifCPUAVX2)
+	got := verifCapture()
+	saved.install()
+	verifSetAVX2(savedAVX2)
+	want := verifDefault.slots()
+	var bad []string
+	for k, v := range got.slots() {
+		if want[k] != v {
+			bad = append(bad, fmt.Sprintf("%s: init installed %s, hook copy installs %s", k, want[k], v))
+		}
+	}
+	sort.Strings(bad)
+	return bad
+}
+
+// VerifKernels lists every dispatch slot and every direct wrapper together with
+// its portable twin.  Cur always calls through the live slot / wrapper.
+func VerifKernels() []VerifKernel {
+	verifSetup()
+	ks := []VerifKernel{
+		{Name: "ITransform", Sig: "itransform",
+			Cur: func(ref []byte, in []int16, dst []byte, two bool) { ITransform(ref, in, dst, two) }, Go: VerifITransformFunc(iTransform)},
+		{Name: "FTransform", Sig: "ftransform",
+			Cur: func(src, ref []byte, out []int16) { FTransform(src, ref, out) }, Go: VerifFTransformFunc(fTransform)},
+		{Name: "FTransform2", Sig: "ftransform2",
+			Cur: func(src, ref []byte, out []int16) { FTransform2(src, ref, out) }, Go: VerifFTransformFunc(fTransform2)},
+		{Name: "FTransformWHT", Sig: "fwht",
+			Cur: func(in, out []int16) { FTransformWHT(in, out) }, Go: VerifWHTFunc(fTransformWHT)},
+		{Name: "Transform", Sig: "dec2",
+			Cur: func(c []int16, d []byte, two bool) { Transform(c, d, two) }, Go: VerifDec2Func(transformTwo)},
+		{Name: "TransformAC3", Sig: "dec1",
+			Cur: func(c []int16, d []byte) { TransformAC3(c, d) }, Go: VerifDec1Func(transformAC3)},
+		{Name: "TransformDC", Sig: "dec1",
+			Cur: func(c []int16, d []byte) { TransformDC(c, d) }, Go: VerifDec1Func(transformDC)},
+		{Name: "TransformUV", Sig: "decuv",
+			Cur: func(c []int16, d []byte) { TransformUV(c, d) }, Go: VerifDec1Func(transformUV)},
+		{Name: "TransformDCUV", Sig: "decuv",
+			Cur: func(c []int16, d []byte) { TransformDCUV(c, d) }, Go: VerifDec1Func(transformDCUV)},
+		{Name: "TransformWHT", Sig: "iwht",
+			Cur: func(in, out []int16) { TransformWHT(in, out) }, Go: VerifWHTFunc(transformWHT)},
+		{Name: "SSE4x4", Sig: "metric4",
+			Cur: func(a, b []byte) int { return SSE4x4(a, b) }, Go: VerifMetricFunc(sse4x4)},
+		{Name: "SSE16x16", Sig: "metric16",
+			Cur: func(a, b []byte) int { return SSE16x16(a, b) }, Go: VerifMetricFunc(sse16x16)},
+		{Name: "AddGreenToBlueAndRedFunc", Sig: "green",
+			Cur: func(p []uint32, n int) { AddGreenToBlueAndRedFunc(p, n) }, Go: VerifGreenFunc(addGreenToBlueAndRedGo)},
+		{Name: "SubtractGreenFunc", Sig: "green",
+			Cur: func(p []uint32, n int) { SubtractGreenFunc(p, n) }, Go: VerifGreenFunc(subtractGreenGo)},
+
+		// direct wrappers
+		{Name: "ITransformDirect", Sig: "itransform", Direct: true, Cur: VerifITransformFunc(ITransformDirect), Go: VerifITransformFunc(iTransform)},
+		{Name: "FTransformDirect", Sig: "ftransform", Direct: true, Cur: VerifFTransformFunc(FTransformDirect), Go: VerifFTransformFunc(fTransform)},
+		{Name: "SSE4x4Direct", Sig: "metric4", Direct: true, Cur: VerifMetricFunc(SSE4x4Direct), Go: VerifMetricFunc(sse4x4)},
+		{Name: "SSE16x16Direct", Sig: "metric16", Direct: true, Cur: VerifMetricFunc(SSE16x16Direct), Go: VerifMetricFunc(sse16x16)},
+		{Name: "TDisto4x4", Sig: "metric4", Direct: true, Cur: VerifMetricFunc(TDisto4x4), Go: VerifMetricFunc(tDisto4x4Go)},
+		{Name: "TDisto16x16", Sig: "metric16", Direct: true, Cur: VerifMetricFunc(TDisto16x16), Go: VerifMetricFunc(tDisto16x16Go)},
+		{Name: "PredLuma16Direct", Sig: "predmode16", Direct: true, Cur: VerifPredModeFunc(PredLuma16Direct),
+			Go: VerifPredModeFunc(func(mode int, buf []byte, off int) { verifPortable.PredLuma16[mode](buf, off) })},
+		{Name: "PredChroma8Direct", Sig: "predmode8", Direct: true, Cur: VerifPredModeFunc(PredChroma8Direct),
+			Go: VerifPredModeFunc(func(mode int, buf []byte, off int) { verifPortable.PredChroma8[mode](buf, off) })},
+		{Name: "PredLuma4Direct", Sig: "predmode4", Direct: true, Cur: VerifPredModeFunc(PredLuma4Direct),
+			Go: VerifPredModeFunc(func(mode int, buf []byte, off int) { verifPortable.PredLuma4[mode](buf, off) })},
+		{Name: "SimpleVFilter16", Sig: "sfilter", Direct: true, Cur: VerifSFilterFunc(SimpleVFilter16), Go: VerifSFilterFunc(simpleVFilter16Go)},
+		{Name: "SimpleVFilter16i", Sig: "sfilteri", Direct: true, Cur: VerifSFilterFunc(SimpleVFilter16i),
+			Go: VerifSFilterFunc(func(p []byte, base, stride, thresh int) {
+				for k := 1; k <= 3; k++ {
+					simpleVFilter16Go(p, base+k*4*stride, stride, thresh)
+				}
+			})},
+		{Name: "UpsampleLinePairNRGBA", Sig: "upsample", Direct: true, Cur: VerifUpsampleFunc(UpsampleLinePairNRGBA), Go: VerifUpsampleFunc(upsampleLinePairNRGBAGo)},
+	}
+	for i := range PredLuma16 {
+		i := i
+		ks = append(ks, VerifKernel{Name: fmt.Sprintf("PredLuma16[%d]", i), Sig: "pred16",
+			Cur: func(buf []byte, off int) { PredLuma16[i](buf, off) }, Go: VerifPredFunc(verifPortable.PredLuma16[i])})
+	}
+	for i := range PredChroma8 {
+		i := i
+		ks = append(ks, VerifKernel{Name: fmt.Sprintf("PredChroma8[%d]", i), Sig: "pred8",
+			Cur: func(buf []byte, off int) { PredChroma8[i](buf, off) }, Go: VerifPredFunc(verifPortable.PredChroma8[i])})
+	}
+	for i := range PredLuma4 {
+		i := i
+		ks = append(ks, VerifKernel{Name: fmt.Sprintf("PredLuma4[%d]", i), Sig: "pred4",
+			Cur: func(buf []byte, off int) { PredLuma4[i](buf, off) }, Go: VerifPredFunc(verifPortable.PredLuma4[i])})
+	}
+	return ks
+}
+
+// --- single-path kernels (pure Go on every platform): exposed for the
+// Go-vs-model correspondence only ---
+
+func VerifNeedsFilter(p1, p0, q0, q1, thresh int) bool { return needsFilter(p1, p0, q0, q1, thresh) }
+func VerifNeedsFilter2(p3, p2, p1, p0, q0, q1, q2, q3, thresh, ithresh int) bool {
+	return needsFilter2(p3, p2, p1, p0, q0, q1, q2, q3, thresh, ithresh)
+}
+func VerifHev(p1, p0, q0, q1, t int) bool { return hev(p1, p0, q0, q1, t) }
+
+// VerifClipTables returns copies of the four clip tables and their offsets.
+func VerifClipTables() (s1 []int8, s2 []int8, c1 []uint8, a0 []uint8, offs [4]int) {
+	return append([]int8(nil), sclip1[:]...), append([]int8(nil), sclip2[:]...),
+		append([]uint8(nil), clip1[:]...), append([]uint8(nil), abs0[:]...),
+		[4]int{sclip1Offset, sclip2Offset, clip1Offset, abs0Offset}
+}
+
+// VerifYUVClipTable returns a copy of vp8kClip.
+func VerifYUVClipTable() []uint8 { return append([]uint8(nil), vp8kClip[:]...) }
+
+// VerifTTransform is tTransform with the luma weights.
+func VerifTTransform(in []byte) int { return tTransform(in, kWeightY[:]) }
